@@ -410,6 +410,9 @@ func ruleS8(p *Prog, r *Report) {
 			if isFreshBase(fw.Ref.Base) {
 				return // constructor-style initialisation of a new storage object
 			}
+			if !storageLayerFields[fw.Ref.Field] {
+				return // not part of the overlay model (rule S13 decides companions of the write set)
+			}
 			n++
 			cons := fmt.Sprintf("%s.%s:%s", fw.Ref.Field, fw.Kind, p.Name(top))
 			var rw *row
